@@ -1,4 +1,112 @@
 package harness
 
+import (
+	"context"
+	"time"
+
+	"github.com/failsafe-go/failsafe-go/circuitbreaker"
+)
+
+// Standalone API calls a client can make on shared policy instances.
+// Event: Kind EvStandalone, Str = op kind, Pos = policy instance, A = result, B = argument, L = phase (0 invoke, 1 return).
+
 func (w *World) standalone(op *Op) {
+	inv := func() { w.log.add(Event{Kind: EvStandalone, Str: op.Kind, Pos: op.Pol, B: int64(op.N), L: 0, Exec: -2}) }
+	ret := func(a int64, err error) {
+		w.log.add(Event{Kind: EvStandalone, Str: op.Kind, Pos: op.Pol, A: a, B: int64(op.N), Err: err, L: 1, Exec: -2})
+	}
+	b2i := func(b bool) int64 {
+		if b {
+			return 1
+		}
+		return 0
+	}
+	switch op.Kind {
+	// ---- bulkhead
+	case "bh.try":
+		inv()
+		ret(b2i(w.bhs[op.Pol].TryAcquirePermit()), nil)
+	case "bh.acquire_wait":
+		inv()
+		err := w.bhs[op.Pol].AcquirePermitWithMaxWait(nil, op.Dur)
+		ret(b2i(err == nil), err)
+	case "bh.acquire_ctx":
+		ctx, cancel := context.WithTimeout(context.Background(), op.Dur)
+		inv()
+		err := w.bhs[op.Pol].AcquirePermit(ctx)
+		cancel()
+		ret(b2i(err == nil), err)
+	case "bh.release":
+		inv()
+		w.bhs[op.Pol].ReleasePermit()
+		ret(1, nil)
+	// ---- breaker
+	case "br.try":
+		inv()
+		ret(b2i(w.brs[op.Pol].TryAcquirePermit()), nil)
+	case "br.success":
+		inv()
+		w.brs[op.Pol].RecordSuccess()
+		ret(0, nil)
+	case "br.failure":
+		inv()
+		w.brs[op.Pol].RecordFailure()
+		ret(0, nil)
+	case "br.result":
+		inv()
+		w.brs[op.Pol].RecordResult(op.Arg)
+		ret(0, nil)
+	case "br.error":
+		inv()
+		w.brs[op.Pol].RecordError(errTable[op.Arg])
+		ret(0, nil)
+	case "br.open":
+		inv()
+		w.brs[op.Pol].Open()
+		ret(0, nil)
+	case "br.halfopen":
+		inv()
+		w.brs[op.Pol].HalfOpen()
+		ret(0, nil)
+	case "br.close":
+		inv()
+		w.brs[op.Pol].Close()
+		ret(0, nil)
+	case "br.observe":
+		w.observeBreaker(op.Pol)
+	// ---- limiter
+	case "rl.try":
+		inv()
+		ret(b2i(w.rls[op.Pol].TryAcquirePermits(op.N)), nil)
+	case "rl.reserve":
+		inv()
+		ret(int64(w.rls[op.Pol].ReservePermits(op.N)), nil)
+	case "rl.tryreserve":
+		inv()
+		ret(int64(w.rls[op.Pol].TryReservePermits(op.N, op.Dur)), nil)
+	case "rl.acquire":
+		inv()
+		err := w.rls[op.Pol].AcquirePermitsWithMaxWait(context.Background(), op.N, op.Dur)
+		ret(b2i(err == nil), err)
+	case "rl.acquire_nomax":
+		inv()
+		err := w.rls[op.Pol].AcquirePermits(context.Background(), op.N)
+		ret(b2i(err == nil), err)
+	}
+}
+
+// observeBreaker records State, RemainingDelay and Metrics in one scheduler step.
+func (w *World) observeBreaker(pol int) {
+	br := w.brs[pol]
+	var st circuitbreaker.State
+	var rem time.Duration
+	var m [5]uint
+	quiet(func() {
+		st = br.State()
+		rem = br.RemainingDelay()
+		mm := br.Metrics()
+		m = [5]uint{mm.Executions(), mm.Failures(), mm.Successes(), mm.FailureRate(), mm.SuccessRate()}
+	})
+	w.log.add(Event{Kind: EvStandalone, Str: "br.observe", Pos: pol, A: int64(st), B: int64(rem), L: 1, Exec: -2,
+		Attempts: int(m[0]), Executions: int(m[1]), Retries: int(m[2]), Hedges: int(m[3]), Aux: []int{int(m[4])}})
 }
